@@ -153,6 +153,10 @@ async fn client(seed: u64, t: u64, nops: u64, names: Arc<Vec<String>>, hist: Arc
                 } else if p.chance(1, 3) {
                     spec.pre_start = vec![Step::Yield];
                 }
+                if p.chance(1, 3) {
+                    // a slow post_stop: the name is already free while the old holder is still exiting
+                    spec.post_stop = vec![Step::Sleep(p.range(1, 4))];
+                }
                 let spec = Arc::new(spec);
                 let call = stamp();
                 let r = spawn_probe(&spec, None).await;
@@ -230,6 +234,21 @@ async fn client(seed: u64, t: u64, nops: u64, names: Arc<Vec<String>>, hist: Arc
                         }
                         _ => {
                             let _ = o.actor.send_message(PMsg::Work(Work::new(&trace, t as u32, op, vec![Step::PanicString])));
+                        }
+                    }
+                    if p.chance(1, 3) {
+                        // repeated / late termination requests while the actor is (perhaps) already exiting
+                        if yields {
+                            tokio::task::yield_now().await;
+                        } else {
+                            tokio::time::sleep(std::time::Duration::from_millis(1)).await;
+                        }
+                        match p.below(3) {
+                            0 => {
+                                let _ = o.actor.drain();
+                            }
+                            1 => o.actor.stop(None),
+                            _ => o.actor.kill(),
                         }
                     }
                     if p.chance(1, 2) {
